@@ -283,7 +283,9 @@ def query_kind(query):
 
 
 class Checker:
-    def __init__(self, entries_spec):
+    def __init__(self, entries_spec, deadline=None):
+        self.deadline = deadline
+        self.skipped = 0
         self.spec = entries_spec
         self.entries = prime_entries()
         self.engine = dawgie.db.search()
@@ -301,6 +303,9 @@ class Checker:
 
     def check_find(self, query, pages, concat=True):
         '''pages: "all" or a list of (index, limit)'''
+        if sc.expired(self.deadline):
+            self.skipped += 1
+            return
         inp = {'kind': 'find', 'query': query}
         self.sigs.add(('find', repr(query)))
         want = expected_find(self.entries, query)
@@ -350,6 +355,9 @@ class Checker:
                 self.flag('C17.page', f'concatenation-limit', dict(inp, limit=limit), cat, items)
 
     def check_facet(self, query, level):
+        if sc.expired(self.deadline):
+            self.skipped += 1
+            return
         q = dict(query)
         q[level] = []
         inp = {'kind': 'facet', 'query': q}
@@ -419,20 +427,21 @@ NAME_COMBOS_SMALL = [
 ]
 
 
-def run_store(spec, plan, seed):
+def run_store(spec, plan, seed, deadline=None):
     '''plan: dict with the sizes of the parts to run on this store'''
     sc.install()
     sc.fast_digest(True)
     rng = random.Random(seed)
     store = build_store(spec)
     try:
-        ck = Checker(spec)
+        ck = Checker(spec, deadline)
         all_opts = list(itertools.product(OPTS, repeat=5))
         exprs = find_expressions()
         # (a) every name-constraint combination x a few run-id expressions
-        for e in SMALL_EXPRS[plan.get('small_from', 0) : plan['small_exprs']]:
+        for ei, e in enumerate(SMALL_EXPRS[plan.get('small_from', 0) : plan['small_exprs']]):
+            few = plan['few_pages'] or ei >= plan.get('all_pages_exprs', 99)
             for opts in all_opts:
-                ck.check_find(query_of(e, opts), [(1, 2)] if plan['few_pages'] else 'all', concat=not plan['few_pages'])
+                ck.check_find(query_of(e, opts), [(1, 2)] if few else 'all', concat=not few)
         # (b) every run-id expression x a few name-constraint combinations, all pages
         for e in exprs[:: plan['expr_stride']]:
             for opts in NAME_COMBOS_SMALL[: plan['combos']]:
@@ -448,7 +457,7 @@ def run_store(spec, plan, seed):
                 for opts in all_opts[:: plan['facet_opt_stride']]:
                     if opts[li] is None:
                         ck.check_facet(query_of(e, opts), level)
-        return ck.found, ck.execs, len(ck.sigs)
+        return ck.found, ck.execs, len(ck.sigs), ck.skipped
     finally:
         store.destroy()
 
@@ -457,14 +466,17 @@ def _run_store_args(args):
     return run_store(*args)
 
 
-def run_scrub(seed, ntriples):
+def run_scrub(seed, ntriples, deadline=None):
     sc.install()
     rng = random.Random(seed)
-    execs, found, n = [0], [], 0
+    execs, found, n, skipped = [0], [], 0, 0
     for enc in scrub_expressions(rng, ntriples):
+        if sc.expired(deadline):
+            skipped += 1
+            continue
         n += 1
         check_scrub(enc, execs, found)
-    return found, execs[0], n
+    return found, execs[0], n, skipped
 
 
 def _run_scrub_args(args):
@@ -482,25 +494,27 @@ def run(tier: str, seed: int) -> dict:
         ]
         ntriples, procs = 1500, 1
     else:
-        stores = [STORE0] + [random_store(rng) for _ in range(15)]
-        plans = [{'small_exprs': 6, 'few_pages': False, 'expr_stride': 1, 'combos': 12, 'random': 600, 'facet_stride': 5, 'facet_opt_stride': 1}] * len(stores)
-        ntriples, procs = 60000, min(16, os.cpu_count() or 1)
-    jobs = [(spec, plan, seed * 1000 + i) for i, (spec, plan) in enumerate(zip(stores, plans))]
+        stores = [STORE0] + [random_store(rng) for _ in range(11)]
+        plans = [{'small_exprs': 6, 'all_pages_exprs': 2, 'few_pages': False, 'expr_stride': 1, 'combos': 6, 'random': 300, 'facet_stride': 10, 'facet_opt_stride': 1}] * len(stores)
+        ntriples, procs = 40000, min(16, os.cpu_count() or 1)
+    deadline = t0 + sc.BUDGET_S[tier]
+    jobs = [(spec, plan, seed * 1000 + i, deadline) for i, (spec, plan) in enumerate(zip(stores, plans))]
     if procs > 1:
         import multiprocessing
 
         with multiprocessing.get_context('fork').Pool(procs) as pool:
-            scrub_async = pool.map_async(_run_scrub_args, [(seed * 77 + j, ntriples // 8) for j in range(8)])
+            scrub_async = pool.map_async(_run_scrub_args, [(seed * 77 + j, ntriples // 4, deadline) for j in range(4)])
             results = pool.map(_run_store_args, jobs, chunksize=1)
             scrubs = scrub_async.get()
     else:
         results = [run_store(*j) for j in jobs]
-        scrubs = [run_scrub(seed, ntriples)]
+        scrubs = [run_scrub(seed, ntriples, deadline)]
     viol = sc.Violations()
-    execs = distinct = 0
-    for found, n, d in list(results) + list(scrubs):
+    execs = distinct = skipped = 0
+    for found, n, d, sk in list(results) + list(scrubs):
         execs += n
         distinct += d
+        skipped += sk
         for f in found:
             viol.add(f['clause'], f['signature'], f['input'], f['observed'], f['expected'])
     samples = [
@@ -524,6 +538,7 @@ def run(tier: str, seed: int) -> dict:
         'samples': samples,
         'violations': viol.as_list(),
         'clauses': CLAUSES,
+        'skipped_for_time': skipped,
         'wall_s': round(time.time() - t0, 2),
     }
 
